@@ -60,6 +60,7 @@ static const char *opname(uint8_t op) {
 
 void pev_name(const pev *e, char *out, size_t cap) {
     if (e->opcode == 0xF0 && e->tos == 0xEE) { snprintf(out, cap, "Env(platform icon changes)"); return; }
+    if (e->opcode == 0xF0 && e->tos == 0xEF) { snprintf(out, cap, "Env(the interface's MTU is changed)"); return; }
     size_t o = (size_t)snprintf(out, cap, "%s", opname(e->opcode));
     if (e->opcode >= 13) o += (size_t)snprintf(out + o, cap - o, "0x%02x", e->opcode);
     o += (size_t)snprintf(out + o, cap - o, "(tos=%u,from=%s", e->tos, vf_station_name(e->realsrc));
@@ -88,6 +89,7 @@ void drv_linux_deliver(int iface, const uint8_t *frame, size_t len) {
 
 void drv_linux(const pev *e, int iface) {
     static uint8_t buf[VF_MAXMTU + 64];
+    if (e->opcode == 0xF0 && e->tos == 0xEF) { W.env.mtu_alt ^= 1u; return; }      /* environment event: jumbo frames switched on / off */
     if (e->opcode == 0xF0 && e->tos == 0xEE) { W.env.icon_epoch = (W.env.icon_epoch + 1) % 3; return; }   /* environment event, not a frame: icon A -> icon B -> empty icon -> icon A */
     /* complete frames into a zeroed buffer: every byte the core reads was received */
     vf_iface *f = &W.iface[iface];
@@ -202,6 +204,8 @@ int sigma_build(pev *out, int cap, int variant) {
         e.nd = 3; e.d[1].type = 1; e.d[1].pause = 7; e.d[1].src = ST_S1; e.d[1].dst = ST_PEER;
         e.d[2].type = 0xFF; e.d[2].pause = 1; e.d[2].src = ST_S0; e.d[2].dst = ST_PEER; ADD(e);
         ADD(ev_emit1(1, ST_M1, ST_M1, 7, 1, 0, ST_S0, ST_PEER));
+        /* an Emit that is not addressed to us at the LLTD level (flooded / broadcast): if it is executed, then with OUR address as real source */
+        { pev m = ev_emit1(0, ST_M1, ST_M1, 9, 1, 0, ST_S0, ST_PEER); m.realdst = ST_BC; ADD(m); m.realdst = ST_PEER; m.ethdst = ST_BC; m.d[0].type = 0; ADD(m); }
     }
     ADD(ev_query(0, ST_M1, ST_M1, 2));
     if (variant == SIGMA_P) { ADD(ev_query(0, ST_M2, ST_BR, 0xFFFE)); ADD(ev_query(1, ST_M1, ST_M1, 2)); }
